@@ -465,6 +465,43 @@ template<multi::dimensionality_type D> bool gen_op(VS<D> const& s, Rng& rng, boo
 // which query families a run emits: C01 = shape/addrs/paths/bcast, C02 = iter/elems (+ shape), zero|rebased = all
 static bool g_q_shape = true, g_q_iter = true, g_death = false;
 
+// every in-domain operation (with every in-domain argument) applicable to a view: used by the exhaustive small-scope mode
+template<multi::dimensionality_type D> void enumerate_ops(VS<D> const& s, bool rebased, std::vector<Op>& out) {
+	if constexpr(D == 0) { (void)s; (void)rebased; (void)out; }
+	else {
+		auto&& v = mk(s);
+		auto ex = exts_of(v); auto sz = sizes_of(v);
+		long f = ex[0].first, l = ex[0].last, n = sz[0];
+		bool allzero = std::all_of(ex.begin(), ex.end(), [](Ex const& e) { return e.first == 0; });
+		auto add = [&](char const* name, std::vector<long> a) { Op o; o.name = name; o.a = std::move(a); out.push_back(o); };
+		for(long i = f; i < l; ++i) add("index", {i});
+		for(long x = f; x <= l; ++x) for(long y = x; y <= l; ++y) add("sliced", {x, y});
+		for(long k = 1; k <= (n == 0 ? 2 : n); ++k) { if((n == 0 || n % k == 0) && f % k == 0) add("strided", {k}); }
+		for(long k = 0; k <= n; ++k) { add("dropped", {k}); add("taked", {k}); }
+		add("rotated", {}); add("unrotated", {}); add("reversed", {});
+		if constexpr(D >= 2) { add("transposed", {}); if(ex[0].first == 0 && ex[1].first == 0) add("diagonal", {}); if(allzero && v.is_flattable()) add("flatted", {}); }
+		if constexpr(D < MAXD) {
+			for(long k = 1; k <= (n == 0 ? 2 : n); ++k) { if(n == 0 || n % k == 0) add("partitioned", {k}); }
+			if(n > 0) { for(long k = 1; k <= n; ++k) { if(n % k == 0) add("chunked", {k}); } }
+		}
+		// call syntax: one argument per leading dimension, up to 2 arguments: index / a proper sub-range / ALL
+		for(int k = 1; k <= std::min<int>(static_cast<int>(D), 2); ++k) {
+			std::vector<std::vector<CallArg>> alts(static_cast<std::size_t>(k));
+			for(int j = 0; j < k; ++j) {
+				auto const& e = ex[static_cast<std::size_t>(j)];
+				if(e.last > e.first) { alts[static_cast<std::size_t>(j)].push_back(CallArg{0, e.first, 0}); alts[static_cast<std::size_t>(j)].push_back(CallArg{0, e.last - 1, 0}); }
+				alts[static_cast<std::size_t>(j)].push_back(CallArg{1, e.first, e.last});
+				if(e.last - e.first >= 2) alts[static_cast<std::size_t>(j)].push_back(CallArg{1, e.first + 1, e.last});
+				alts[static_cast<std::size_t>(j)].push_back(CallArg{1, e.first, e.first});
+				alts[static_cast<std::size_t>(j)].push_back(CallArg{2, 0, 0});
+			}
+			if(k == 1) { for(auto const& a0 : alts[0]) { Op o; o.name = "call"; o.call = {a0}; out.push_back(o); } }
+			else { for(auto const& a0 : alts[0]) for(auto const& a1 : alts[1]) { Op o; o.name = "call"; o.call = {a0, a1}; out.push_back(o); } }
+		}
+		if(rebased) { add("reindexed", {-1}); add("reindexed", {2}); if(n > 0) add("blocked", {f, l}); if(n >= 2) add("blocked", {f + 1, l}); }
+	}
+}
+
 static void emit_queries(AnyView const& av, int reg, Rng& rng, bool all) {
 	auto q = [&](char const* what) { std::fprintf(fprog, "q %s %d\n", what, reg); };
 	if(all || rng.coin(60)) { q("shape"); std::visit([](auto const& s) { q_shape(s); }, av); }
@@ -587,6 +624,54 @@ static void run_generated(std::uint64_t seed, long nprog, bool rebased) {
 	}
 }
 
+// exhaustive small scope: every root shape with D <= 3 and sizes 0..3 (bases 0, or -1/2 when rebased), every sequence of
+// in-domain operations of length <= depth (depth 2), all queries after the last operation; shapes are split among workers
+static void run_exhaustive(std::uint64_t seed, long depth, bool rebased) {
+	long nworkers = 16; if(char const* e = std::getenv("VERIF_WORKERS")) nworkers = std::atol(e);
+	long worker = static_cast<long>(seed % 1000) % nworkers;
+	Rng rng(seed);
+	std::vector<std::vector<Ex>> shapes;
+	for(int D = 1; D <= 3; ++D) {
+		long total = 1; for(int k = 0; k < D; ++k) total *= 4;
+		for(long code = 0; code < total; ++code) {
+			std::vector<Ex> ex; long c = code;
+			for(int k = 0; k < D; ++k) { long sz = c % 4; c /= 4; long f = rebased ? ((k % 2 == 0) ? -1 : 2) : 0; ex.push_back(Ex{f, f + sz}); }
+			shapes.push_back(ex);
+		}
+	}
+	long p = 0;
+	for(std::size_t si = 0; si < shapes.size(); ++si) {
+		if(static_cast<long>(si) % nworkers != worker) continue;
+		auto const& ex = shapes[si];
+		long ne = 1; for(auto const& e : ex) ne *= e.size();
+		long base = 64;
+		std::string rl = "root 0 " + std::to_string(base) + " " + std::to_string(ex.size());
+		for(auto const& e : ex) rl += " " + std::to_string(e.first) + " " + std::to_string(e.last);
+		AnyView root = make_root_any(ex, make_ptr(base));
+		std::vector<Op> ops1; std::visit([&](auto const& s) { enumerate_ops(s, rebased, ops1); }, root);
+		auto emit_prog = [&](std::vector<Op> const& seq) {
+			g_lo = base; g_hi = base + ne;
+#if PTR_KIND == 2
+			fancy::xptr_bounds(g_lo, g_hi);
+#endif
+			std::fprintf(fprog, "prog %ld %llu\n", p, static_cast<unsigned long long>(seed)); std::fprintf(fans, "prog %ld %llu\n", p, static_cast<unsigned long long>(seed)); ++p;
+			std::fprintf(fprog, "%s\n", rl.c_str());
+			AnyView cur = root; int src = 0;
+			for(auto const& op : seq) { std::fprintf(fprog, "%s\n", op_line(1, src, op).c_str()); cur = std::visit([&](auto const& s) { return apply_op(s, op, false); }, cur); src = 1; }
+			emit_queries(cur, src, rng, true);
+		};
+		emit_prog({});
+		for(auto const& o1 : ops1) {
+			emit_prog({o1});
+			if(depth >= 2) {
+				AnyView v1 = std::visit([&](auto const& s) { return apply_op(s, o1, false); }, root);
+				std::vector<Op> ops2; std::visit([&](auto const& s) { enumerate_ops(s, rebased, ops2); }, v1);
+				for(auto const& o2 : ops2) emit_prog({o1, o2});
+			}
+		}
+	}
+}
+
 // replay: execute a program file (same syntax as generated) on the real library
 static void run_replay(char const* path) {
 	std::ifstream in(path);
@@ -641,7 +726,7 @@ int main(int argc, char** argv) {
 	std::uint64_t seed = std::strtoull(argv[1], nullptr, 10);
 	long nprog = std::strtol(argv[2], nullptr, 10);
 	std::string mode = argv[3];
-	bool rebased = mode == "rebased" || mode == "rebased-c02";
+	bool rebased = mode == "rebased" || mode == "rebased-c02" || mode == "exhaustive-rebased";
 	if(mode == "c01") { g_q_iter = false; }
 	if(mode == "death") { g_death = true; g_q_iter = false; }
 	if(mode == "c02" || mode == "rebased-c02") { g_q_shape = false; }
@@ -654,6 +739,7 @@ int main(int argc, char** argv) {
 	fancy::g_origin = g_mem;
 #endif
 	if(argc >= 8 && std::string(argv[6]) == "--replay") run_replay(argv[7]);
+	else if(mode == "exhaustive" || mode == "exhaustive-rebased") run_exhaustive(seed, 2, mode == "exhaustive-rebased");
 	else run_generated(seed, nprog, rebased);
 	std::fclose(fprog); std::fclose(fans);
 	return g_internal ? 3 : 0;
